@@ -11,11 +11,11 @@ import sys
 sys.path.insert(0, VERIF)
 CLAIMS = {}
 NOT_APPLICABLE = {}
-import subprocess
-_tracked = set(subprocess.run(["git", "-C", VERIF, "ls-files", "tools"], capture_output=True, text=True).stdout.split())
+# properties are claimed only when listed in tools/claimed.txt (reviewed and committed)
+_claimed = set(open(os.path.join(VERIF, "tools", "claimed.txt")).read().split())
 for _f in sorted(glob.glob(os.path.join(VERIF, "tools", "c[0-9][0-9].py"))):
-    if os.path.relpath(_f, VERIF) not in _tracked:
-        continue   # a property still being built: not claimed until its files are committed
+    if os.path.basename(_f)[:-3].upper() not in _claimed:
+        continue
     _pid = os.path.basename(_f)[:-3].upper()
     _m = importlib.import_module(f"tools.{_pid.lower()}")
     if getattr(_m, "CLAIM", None):
